@@ -39,13 +39,24 @@ CONSTANT Mutant      \* "none", or the name of a deliberately wrong disjunct of 
 VC(cls, items) == [k |-> "c", cls |-> cls, items |-> items]
 Entry(key, val) == [key |-> key, val |-> val]     \* one entry of a map-class container
 IsC(v) == v.k = "c"
+\* container classes: the builtins, OrderedDict, and subclasses used to harden the universes --
+\*   flist / fdict: list / dict subclasses whose instances are falsy whatever they hold,
+\*   ntuple: a tuple subclass whose constructor takes the items as separate arguments
+Base(cls) == CASE cls \in {"flist"} -> "list" [] cls \in {"odict", "fdict"} -> "dict" [] cls = "ntuple" -> "tuple" [] OTHER -> cls
+IsMapCls(cls) == Base(cls) = "dict" \/ cls = "obj"
+Family(cls) == IF Base(cls) \in {"set", "frozenset"} THEN "set" ELSE Base(cls)
+FalsyClasses == {"flist", "fdict"}
+\* two hostile scalars: [k: "any"] is == to everything (and != to nothing); [k: "grumpy"] raises
+\* TypeError when compared with anything but another grumpy (it only occurs as a whole target)
+VAny == [k |-> "any"]
+VGrumpy == [k |-> "grumpy"]
 
 RECURSIVE TreeOf(_, _)
 TreeOf(heap, v) ==
   IF ~IsRef(v) THEN v
   ELSE LET c == heap[v.a] IN
        VC(c.cls, [i \in 1..Len(c.items) |->
-                    IF c.cls \in MapClasses
+                    IF IsMapCls(c.cls)
                     THEN Entry(TreeOf(heap, c.items[i][1]), TreeOf(heap, c.items[i][2]))
                     ELSE TreeOf(heap, c.items[i])])
 
@@ -69,21 +80,29 @@ NoStrings == [fullmatch |-> {}, match |-> {}, search |-> {}]
 RegexSet(name, func, flags) ==
   IF name = "rA" THEN (IF flags = "I" THEN RegexTab["ra"][func] ELSE NoStrings[func]) ELSE RegexTab[name][func]
 
-RECURSIVE StrsOK(_)
-StrsOK(v) ==      \* every string of a value lies in the table universe
+RECURSIVE NoGrumpyInside(_)
+NoGrumpyInside(v) ==      \* grumpy values only as a whole target, "any" not as a set element / dict key
+  ~IsC(v) \/ \A i \in 1..Len(v.items) :
+     IF IsMapCls(v.cls) THEN v.items[i].key.k \notin {"grumpy", "any"} /\ v.items[i].val.k # "grumpy" /\ NoGrumpyInside(v.items[i].key) /\ NoGrumpyInside(v.items[i].val)
+     ELSE v.items[i].k # "grumpy" /\ (Family(v.cls) = "set" => v.items[i].k # "any") /\ NoGrumpyInside(v.items[i])
+RECURSIVE StrsOK0(_)
+StrsOK(v) ==      \* every string of a value lies in the table universe (and hostile values are where they may be)
+  NoGrumpyInside(v) /\ StrsOK0(v)
+StrsOK0(v) ==
   IF v.k = "str" THEN v.s \in StrU
   ELSE IF ~IsC(v) THEN TRUE
   ELSE \A i \in 1..Len(v.items) :
-         IF v.cls \in MapClasses THEN StrsOK(v.items[i].key) /\ StrsOK(v.items[i].val) ELSE StrsOK(v.items[i])
+         IF IsMapCls(v.cls) THEN StrsOK0(v.items[i].key) /\ StrsOK0(v.items[i].val) ELSE StrsOK0(v.items[i])
 
 IsNum(v) == v.k \in {"int", "bool"}
 Num(v) == IF v.k = "int" THEN v.i ELSE IF v.b THEN 1 ELSE 0
-Family(cls) == CASE cls \in {"dict", "odict"} -> "dict" [] cls \in {"set", "frozenset"} -> "set" [] OTHER -> cls
 
 \* Python  x == y
 RECURSIVE PyEq(_, _)
 PyEq(x, y) ==
-  IF IsNum(x) /\ IsNum(y) THEN Num(x) = Num(y)
+  IF x.k = "any" \/ y.k = "any" THEN TRUE
+  ELSE IF x.k = "grumpy" \/ y.k = "grumpy" THEN x.k = y.k      \* (a foreign operand raises: see PyCmp / EqRaises)
+  ELSE IF IsNum(x) /\ IsNum(y) THEN Num(x) = Num(y)
   ELSE IF x.k = "str" /\ y.k = "str" THEN x.s = y.s
   ELSE IF x.k = "none" /\ y.k = "none" THEN TRUE
   ELSE IF IsC(x) /\ IsC(y) THEN
@@ -106,8 +125,10 @@ Ordered(x, y) == (IsNum(x) /\ IsNum(y)) \/ (x.k = "str" /\ y.k = "str")
 Lt(x, y) == IF IsNum(x) THEN Num(x) < Num(y) ELSE StrRank[x.s] < StrRank[y.s]
 SubsetEq(x, y) == \A i \in 1..Len(x.items) : \E j \in 1..Len(y.items) : PyEq(x.items[i], y.items[j])
 TF(b) == IF b THEN "T" ELSE "F"
+EqRaises(x, y) == (x.k = "grumpy") # (y.k = "grumpy")
 PyCmp(op, x, y) ==
-  IF op = "==" THEN TF(PyEq(x, y))
+  IF op \in {"==", "!="} /\ EqRaises(x, y) THEN "E"
+  ELSE IF op = "==" THEN TF(PyEq(x, y))
   ELSE IF op = "!=" THEN TF(~PyEq(x, y))
   ELSE IF IsSetV(x) /\ IsSetV(y) THEN
     (IF op = "<=" THEN TF(SubsetEq(x, y)) ELSE IF op = ">=" THEN TF(SubsetEq(y, x))
@@ -120,7 +141,7 @@ PyCmp(op, x, y) ==
 
 PyTruthy(v) ==
   IF v.k = "int" THEN v.i # 0 ELSE IF v.k = "bool" THEN v.b ELSE IF v.k = "str" THEN v.s # ""
-  ELSE IF v.k = "none" THEN FALSE ELSE IF IsC(v) THEN Len(v.items) > 0 ELSE TRUE
+  ELSE IF v.k = "none" THEN FALSE ELSE IF IsC(v) THEN (v.cls \notin FalsyClasses /\ Len(v.items) > 0) ELSE TRUE
 
 \* isinstance(v, <type named tn>)   (bool is a subclass of int, everything is an object,
 \* OrderedDict is a subclass of dict, frozenset is not a set)
@@ -130,12 +151,14 @@ PyIsInstance(v, tn) ==
   ELSE IF tn = "bool" THEN v.k = "bool"
   ELSE IF tn = "str" THEN v.k = "str"
   ELSE IF tn = "NoneType" THEN v.k = "none"
-  ELSE IF tn = "dict" THEN IsC(v) /\ v.cls \in {"dict", "odict"}
   ELSE IF tn = "OrderedDict" THEN IsC(v) /\ v.cls = "odict"
-  ELSE IsC(v) /\ v.cls = tn                        \* list tuple set frozenset
+  ELSE IsC(v) /\ Base(v.cls) = tn                  \* dict list tuple set frozenset (and their subclasses)
 \* type(v).__name__
 PyType(v) ==
-  IF v.k = "none" THEN "NoneType" ELSE IF IsC(v) THEN (IF v.cls = "odict" THEN "OrderedDict" ELSE v.cls) ELSE v.k
+  IF v.k = "none" THEN "NoneType"
+  ELSE IF IsC(v) THEN (IF v.cls = "odict" THEN "OrderedDict" ELSE IF v.cls = "flist" THEN "Falsylist"
+                       ELSE IF v.cls = "fdict" THEN "Falsydict" ELSE IF v.cls = "ntuple" THEN "NTuple" ELSE v.cls)
+  ELSE v.k
 
 \* a step  [n:]  (slice with a non-negative start only)
 VSlice(lo) == [k |-> "slice", lo |-> lo]
@@ -149,15 +172,15 @@ TreeIndex(items, arg) ==
        ELSE IF i < 0 /\ i >= -n THEN Ok(items[n + i + 1]) ELSE Exc("IndexError")
 TreeGetItem(cur, arg) ==
   IF arg.k = "slice" THEN
-    IF IsC(cur) /\ cur.cls \in {"list", "tuple"} THEN Ok(VC(cur.cls, DropN(cur.items, arg.lo)))
+    IF IsC(cur) /\ Base(cur.cls) \in {"list", "tuple"} THEN Ok(VC(Base(cur.cls), DropN(cur.items, arg.lo)))   \* a plain list / tuple
     ELSE IF cur.k = "str" THEN Ok(VStr(StrOfSeq(DropN(StrSeq[cur.s], arg.lo))))
-    ELSE IF IsC(cur) /\ cur.cls \in {"dict", "odict"} THEN Exc("KeyError")
+    ELSE IF IsC(cur) /\ Base(cur.cls) = "dict" THEN Exc("KeyError")
     ELSE Exc("TypeError")
   ELSE IF IsC(cur) THEN
-    IF cur.cls \in {"dict", "odict"} THEN
+    IF Base(cur.cls) = "dict" THEN
       LET hit == {i \in 1..Len(cur.items) : PyEq(cur.items[i].key, arg)} IN
       IF hit = {} THEN Exc("KeyError") ELSE Ok(cur.items[CHOOSE i \in hit : TRUE].val)
-    ELSE IF cur.cls \in {"list", "tuple"} THEN TreeIndex(cur.items, arg)
+    ELSE IF Base(cur.cls) \in {"list", "tuple"} THEN TreeIndex(cur.items, arg)
     ELSE Exc("TypeError")
   ELSE IF cur.k = "str" THEN
     LET r == TreeIndex(StrSeq[cur.s], arg) IN IF r.ok THEN Ok(VStr(r.v)) ELSE r
@@ -178,19 +201,19 @@ ArgVal(t, d) ==
   IF d.k = "targ" THEN TGet(t, d.steps, 1)
   ELSE IF ~IsC(d) THEN Ok(d)
   ELSE LET n == Len(d.items)
-           rs == [i \in 1..n |-> IF d.cls \in MapClasses
+           rs == [i \in 1..n |-> IF IsMapCls(d.cls)
                                   THEN [k |-> ArgVal(t, d.items[i].key), v |-> ArgVal(t, d.items[i].val)]
                                   ELSE [k |-> Ok(VNone), v |-> ArgVal(t, d.items[i])]]
        IN IF \E i \in 1..n : ~rs[i].k.ok \/ ~rs[i].v.ok THEN Exc("KeyError")
-          ELSE Ok(VC(d.cls, [i \in 1..n |-> IF d.cls \in MapClasses THEN Entry(rs[i].k.v, rs[i].v.v) ELSE rs[i].v.v]))
+          ELSE Ok(VC(d.cls, [i \in 1..n |-> IF IsMapCls(d.cls) THEN Entry(rs[i].k.v, rs[i].v.v) ELSE rs[i].v.v]))
 RECURSIVE HasTarg(_)
 HasTarg(d) == d.k = "targ" \/ (IsC(d) /\ \E i \in 1..Len(d.items) :
-                 IF d.cls \in MapClasses THEN HasTarg(d.items[i].key) \/ HasTarg(d.items[i].val) ELSE HasTarg(d.items[i]))
+                 IF IsMapCls(d.cls) THEN HasTarg(d.items[i].key) \/ HasTarg(d.items[i].val) ELSE HasTarg(d.items[i]))
 \* what a caller who mutates a returned container does to it (used to state that a spec object
 \* evaluated again yields what a fresh one yields: nothing of an earlier result lives on in it)
 Poisoned(d) ==
   IF ~IsC(d) \/ d.cls \in {"tuple", "frozenset"} THEN d
-  ELSE IF d.cls \in MapClasses THEN VC(d.cls, Append(d.items, Entry(VStr("#"), VInt(1))))
+  ELSE IF IsMapCls(d.cls) THEN VC(d.cls, Append(d.items, Entry(VStr("#"), VInt(1))))
   ELSE VC(d.cls, Append(d.items, VStr("#")))
 
 \* the named predicates of the harness library: what calling them on t does (a value, or
@@ -280,8 +303,8 @@ Hashable(p) ==
 \* instances of subclasses (OrderedDict ...), which the documentation does not cover
 RECURSIVE PlainDefault(_)
 PlainDefault(d) ==
-  ~IsC(d) \/ (d.cls # "odict" /\ \A i \in 1..Len(d.items) :
-                 IF d.cls \in MapClasses THEN PlainDefault(d.items[i].key) /\ PlainDefault(d.items[i].val) ELSE PlainDefault(d.items[i]))
+  ~IsC(d) \/ (Base(d.cls) = d.cls /\ \A i \in 1..Len(d.items) :
+                 IF IsMapCls(d.cls) THEN PlainDefault(d.items[i].key) /\ PlainDefault(d.items[i].val) ELSE PlainDefault(d.items[i]))
 RECURSIVE InFragment(_, _), InFragment0(_, _)
 InFragment(mode, p) ==
   InFragment0(mode, p) /\ (p.op \in {"and", "or", "switch", "match", "check", "optional"} /\ p.hasdef => PlainDefault(p.def))
@@ -480,7 +503,8 @@ Collect(rs, extra, v) ==
 EvDefault(t, d, calls) ==
   LET r == IF Mutant = "default_not_evaluated" /\ d.k # "targ" THEN Ok(d) ELSE ArgVal(t, d) IN
   IF r.ok THEN Pass(r.v, calls, FALSE) ELSE Fail({"PathAccessError"}, calls)
-WithDefault(o, p, t) == IF Caught(o) /\ p.hasdef THEN [EvDefault(t, p.def, o.calls) EXCEPT !.amb = o.amb] ELSE o
+\* (mutant falsy_default_missing: `if default:` where `default is not _MISSING` is meant)
+WithDefault(o, p, t) == IF Caught(o) /\ p.hasdef /\ ~(Mutant = "falsy_default_missing" /\ ~PyTruthy(p.def)) THEN [EvDefault(t, p.def, o.calls) EXCEPT !.amb = o.amb] ELSE o
 
 RECURSIVE Ev(_, _, _), EvAnd(_, _, _, _), EvOr(_, _, _, _, _), EvSwitch(_, _, _, _),
           EvAlts(_, _, _, _), EvItem(_, _, _), EvEntry(_, _, _, _)
@@ -497,6 +521,8 @@ EvOr(mode, t, cs, i, acc) ==
   LET r == Ev(mode, t, cs[i]) IN
   IF Mutant = "or_last" /\ r.ok /\ i < Len(cs) /\ EvOr(mode, t, cs, i + 1, acc).ok
     THEN Prepend(r.calls, r.amb, EvOr(mode, t, cs, i + 1, acc))
+  \* (mutant or_skips_falsy_result: `result or next` -- a passing child whose result is falsy is passed over)
+  ELSE IF r.ok /\ Mutant = "or_skips_falsy_result" /\ ~PyTruthy(r.v) /\ i < Len(cs) THEN Prepend(r.calls, r.amb, EvOr(mode, t, cs, i + 1, acc))
   ELSE IF r.ok \/ Foreign(r) THEN r
   ELSE IF i = Len(cs) THEN [Fail({"MatchError"} \cup acc \cup r.errs, r.calls) EXCEPT !.amb = r.amb]
   ELSE Prepend(r.calls, r.amb, EvOr(mode, t, cs, i + 1, acc \cup r.errs))
@@ -524,6 +550,7 @@ EvSwitch(mode, t, p, i) ==
 EvCheck(t0, p) ==
   LET g == TGet(t0, p.sub, 1) IN
   IF ~g.ok THEN Fail({"PathAccessError"}, <<>>)
+  ELSE IF \E i \in 1..Len(p.vals) : EqRaises(g.v, p.vals[i]) THEN Fail({"TypeError"}, <<>>)     \* `in` compares with ==
   ELSE
   LET t == g.v
       raising == \E i \in 1..Len(p.validate) : ~PredRet(p.validate[i].name, t).ok
@@ -573,8 +600,10 @@ ByPrecedence(items) ==
   SelectSeq(items, LAMBDA it : KeyPrec(it[1]) = 0) \o SelectSeq(items, LAMBDA it : KeyPrec(it[1]) = 1) \o
   SelectSeq(items, LAMBDA it : KeyPrec(it[1]) = 2)
 
+\* (mutant container_exact_type: type(target) is <class> where isinstance is documented)
+MechIsInstance(t, tn) == IF Mutant = "container_exact_type" THEN IsC(t) /\ t.cls = tn ELSE PyIsInstance(t, tn)
 EvDict(t, p0) ==
-  IF ~PyIsInstance(t, "dict") THEN Fail({"TypeMatchError"}, <<>>)
+  IF ~MechIsInstance(t, "dict") THEN Fail({"TypeMatchError"}, <<>>)
   ELSE LET p == IF Mutant = "keys_by_precedence" THEN [p0 EXCEPT !.items = ByPrecedence(@)] ELSE p0
            n == Len(t.items)
            es == [i \in 1..n |-> EvEntry(t.items[i].key, t.items[i].val, p.items, 1)]
@@ -601,13 +630,13 @@ EvDict(t, p0) ==
                   VC("dict", base \o [i \in 1..Len(dflt) |-> Entry(dflt[i][1].key, dvals[i].v)]))
 
 EvSeqPat(t, p) ==
-  IF ~PyIsInstance(t, p.op) /\ ~(Mutant = "set_family_loose" /\ IsC(t) /\ Family(t.cls) = Family(p.op))
+  IF ~MechIsInstance(t, p.op) /\ ~(Mutant = "set_family_loose" /\ IsC(t) /\ Family(t.cls) = Family(p.op))
     THEN Fail({"TypeMatchError"}, <<>>)
   ELSE LET rs == [i \in 1..Len(t.items) |-> EvItem(t.items[i], p.alts, p.op # "list")]
        IN Collect(rs, {}, VC(p.op, [i \in 1..Len(rs) |-> rs[i].v]))
 
 EvTuple(t, p) ==
-  IF ~PyIsInstance(t, "tuple") THEN Fail({"TypeMatchError"}, <<>>)
+  IF ~MechIsInstance(t, "tuple") THEN Fail({"TypeMatchError"}, <<>>)
   ELSE IF Len(t.items) # Len(p.elems) /\ ~(Mutant = "tuple_length_unchecked" /\ Len(t.items) > Len(p.elems))
     THEN Fail({"MatchError"}, <<>>)
   ELSE LET rs == [i \in 1..Len(p.elems) |-> Ev("match", t.items[i], p.elems[i])]
@@ -627,7 +656,9 @@ EvCmp(t, lhs, cmp, c) ==
   ELSE IF r = "F" \/ Mutant = "unorderable_is_rejection" THEN Fail({"MatchError"}, <<>>) ELSE Fail({"TypeError"}, <<>>)
 
 Ev(mode, t, p) ==
-  IF p.op = "lit" THEN IF PyEq(t, p.v) THEN Pass(t, <<>>, FALSE) ELSE Fail({"MatchError"}, <<>>)
+  IF p.op = "lit" THEN
+    IF EqRaises(t, p.v) THEN Fail({"TypeError"}, <<>>)          \* the == of the values themselves raises
+    ELSE IF PyEq(t, p.v) THEN Pass(t, <<>>, FALSE) ELSE Fail({"MatchError"}, <<>>)
   ELSE IF p.op = "type" THEN
     IF (IF Mutant = "type_exact" THEN PyType(t) = p.t ELSE PyIsInstance(t, p.t)) THEN Pass(t, <<>>, FALSE)
     ELSE Fail({"TypeMatchError"}, <<>>)
@@ -646,7 +677,9 @@ Ev(mode, t, p) ==
          THEN Pass(t, <<>>, TRUE) ELSE Fail({"MatchError"}, <<>>)
   ELSE IF p.op = "m" THEN
     IF p.refl /\ Mutant # "m_reflected_unswapped" THEN EvCmp(t, p.rhs, p.cmp, t) ELSE EvCmp(t, t, p.cmp, p.rhs)
-  ELSE IF p.op = "mtruthy" THEN IF PyTruthy(t) THEN Pass(t, <<>>, TRUE) ELSE Fail({"MatchError"}, <<>>)
+  \* (mutant truthy_by_len: a container is judged by its length, not by bool())
+  ELSE IF p.op = "mtruthy" THEN
+    IF (IF Mutant = "truthy_by_len" /\ IsC(t) THEN Len(t.items) > 0 ELSE PyTruthy(t)) THEN Pass(t, <<>>, TRUE) ELSE Fail({"MatchError"}, <<>>)
   ELSE IF p.op = "msub" THEN
     LET g == TGet(t, p.steps, 1) IN
     IF g.ok THEN EvCmp(IF Mutant = "msub_returns_sub" THEN g.v ELSE t, g.v, p.cmp, p.rhs) ELSE Fail({"PathAccessError"}, <<>>)
